@@ -7,6 +7,7 @@ props = [json.loads(l) for l in open(os.path.join(V, "properties.jsonl"))]
 TB = ("trusted: TLC 1.8.0; the Go drivers/abstraction in /verif/harness/inpkg (they only step the real code and log; verdicts are TLC's); "
       "hooks emitted at the documented linearization points; ")
 
+PF = 'TLA+ ProxyOps/ProxyOper/ProxyJudge: TLC checks the code-shaped pipeline model against the declarative relation on every recipe of a bounded universe (leg M), emits the recipes, the Go concretiser runs each on a real Proxy (leg R), and TLC judges alpha(in)/alpha(out) of every loop iteration with Trace_Proxy under Focus=%s (leg T)'
 CHECKS = {
  "C05": dict(cat="model_checking", tech="TLA+ Pool spec: TLC exhaustive (sequential + racing threads) + TLC-emitted behaviours replayed on the real RoundRobinBackend + trace validation by TLC",
     text="Pool.tla model-checked exhaustively (all add/remove/dispatch histories to depth 9 over 4 addresses; 2 dispatcher threads x 3 critical sections racing with membership changes). "
@@ -25,6 +26,21 @@ CHECKS = {
     text="TLC checks the law of C16 on every ordered pair of messages over 3 Call-IDs x 4 tags^2 x 6 URIs^2 (3.0M pairs thorough, 83k quick) for the repaired key construction and shows the pinned construction violates it. "
          "Every assignment is rendered as request/response, both orientations, decorated/undecorated, compact names, bare addr-spec, parsed by the real parser and GetDialog; TLC checks that the interned results induce exactly the partition of the declarative identity; random long identifiers with one-component mutations.",
     note=TB + "the driver's rendering of the abstract identity into header text is trusted (plain formatting).", ref="5/C16"),
+ "C03": dict(cat="model_checking", tech=PF % "C03",
+    text="The full decision table of the quantifier (54k recipes: Route shape incl. near misses x To-host class x Request-URI class x keep x listener port x pool x learnt/not/learnt through a real UDP listener) is model-checked (operational fall-through of proxy.go vs the declarative precedence table) and every cell is executed on a real Proxy with live loopback UDP/TCP sinks at every candidate destination, absence observed behind the loop barrier; TLC judges number of sends and destination.",
+    note=TB + "regular-expression matches of service names are evaluated by the driver with Go regexp on the subject the property names (user@host / whole URI); quick executes every third recipe twice.", ref="5/C03"),
+ "C13": dict(cat="model_checking", tech=PF % "C13",
+    text="Route sets of 0-3 (quick) / 0-4 (thorough) entries in every header-line layout x first-entry class (own by address / alias / alias without port, near misses, foreign) x keep on/off x listener port 5060/5070, decorated with display names, valued and valueless URI parameters, header parameters: model-checked and executed; TLC compares the flattened Route stack relayed with RouteExpect entry by entry.",
+    note=TB + "aliases through the configured host table only.", ref="5/C13"),
+ "C06": dict(cat="model_checking", tech=PF % "C06",
+    text="0-2 (quick) / 0-3 (thorough) Via and Record-Route entries in every layout x 7 header orders (+ random line interleavings) x three relaying paths x must-record-route x learnt by source / by Via host / through another listener / not learnt: model-checked and executed; TLC judges the Via and Record-Route stacks, the listener named, cookie and freshness of the branch (freshness over all branches seen in the run).",
+    note=TB + "branch cookie/freshness are reported by alpha as booleans; a Via naming any transport of the backend's listen entry is accepted.", ref="5/C06"),
+ "C01": dict(cat="model_checking", tech=PF % "C01",
+    text="Requests and responses on all four relaying paths (UDP and TCP next hops, backends) x 7 header orders + random interleavings, with 0-40 extension headers (hostile values up to 16 KiB) and bodies to 60 KiB: TLC compares start line, the <<name, value>> sequence of every non-routing header, body id and the single Content-Length against the input.",
+    note=TB + "folded lines, blanks before the colon, blank runs in start lines and messages without Content-Length are outside the domain; byte equality is reached through interning in alpha.", ref="5/C01"),
+ "C02": dict(cat="model_checking", tech=PF % "C02",
+    text="Responses with 1-4 Via entries in every layout x 11 entry shapes (port +/-, received, rport valued/valueless/alone, TCP, TLS, SCTP) x 7 status codes x 5 header orders: model-checked (operational PopVia/next-hop vs declarative RespHop) and executed against live loopback sinks; TLC judges relayed-or-not, destination triple and the remaining Via stack.",
+    note=TB + "the closed-loop return-path consequence is covered by the dialog/history driver (C04) where requests and responses travel through the same proxy.", ref="5/C02"),
 }
 NA_REASON = "check not built yet (work in progress; see DESIGN.md section 9)"
 
